@@ -204,6 +204,20 @@ def splitNL : Bytes → List Bytes
       | [] => [[c]]
       | hd :: tl => (c :: hd) :: tl
 
+/-! ### HTTP /pub body -/
+
+inductive PubErr
+  | tooBig | empty
+deriving DecidableEq, Repr
+
+/-- `doPUB`: `req.ContentLength > MaxMsgSize` → 413; `io.ReadAll(io.LimitReader(req.Body, MaxMsgSize+1))`;
+`len(body) == MaxMsgSize+1` → 413 MSG_TOO_BIG; `len(body) == 0` → 400 MSG_EMPTY; else the body published -/
+def httpPub (contentLengthKnown : Bool) (body : Bytes) (maxMsg : Nat) : Except PubErr Bytes :=
+  if contentLengthKnown && body.length > maxMsg then .error .tooBig
+  else if (body.take (maxMsg + 1)).length = maxMsg + 1 then .error .tooBig
+  else if (body.take (maxMsg + 1)).isEmpty then .error .empty
+  else .ok (body.take (maxMsg + 1))
+
 /-! ### diskqueue records -/
 
 /-- go-diskqueue `writeOne`: 4-byte length + data (assumed behaviour of the library) -/
